@@ -4,8 +4,9 @@ from harness.common import bud
 from harness.props import c01
 
 PROP = "C05"
-MODULES = ["CassisModel.Properties.C05", "CassisModel.Properties.C01", "CassisModel.Properties.C05Perm", "CassisModel.Properties.C05PermJson", "CassisModel.Properties.C05PermJsonColl"]
+MODULES = ["CassisModel.Properties.C05", "CassisModel.Properties.C01", "CassisModel.Properties.C05Perm", "CassisModel.Properties.C05PermJson", "CassisModel.Properties.C05PermJsonColl", "CassisModel.Properties.C05PermColl"]
 THEOREMS = [
+    "Cassis.Xmi.xmi_load_perm_coll",
     "Cassis.Json.json_load_perm_flat",
     "Cassis.Json.json_load_perm_coll",
     "Cassis.Xmi.xmi_load_perm_flat",
